@@ -164,7 +164,7 @@ class Worker:
         budget = cpu_budget or self.cpu_budget
         kind = job.get("kind", "eval")
         units_key = {"eval": "stmts", "parse": "srcs"}.get(kind)
-        restartable = kind == "parse" or (kind == "eval" and job.get("fresh_each"))
+        restartable = kind == "parse" or (kind == "eval" and (job.get("fresh_each") or job.get("child_each")))
         events = []
         job = dict(job)
         while True:
